@@ -1,5 +1,6 @@
 import StrumProofs.Lemmas.Bytes
 import StrumProofs.Collect
+import StrumProofs.Source
 /-
 C15 — EnumProperty returns the declared value for (variant, key, type), else None.
 Model: `getProp` (StrumModel/Message.lean): outer match over enabled variants (plus `_ => None` when a
